@@ -73,7 +73,17 @@ def run(prop, key, direction):
     else:
         res.violate(prop + ".R1", b["id"], "returned parser is not the configured one", "default() returns %s" % M.show(rt)[:160], file=v.file(), line=b["line"])
     # the registration reaches GenericParser.claim_validators under the claim's key (plumbing)
-    plumbing(res, prop, facts)
+    plumbing(res, prop, facts, strict=False)
+    # R4: the registered validator is actually invoked with the payload's value and its verdict honoured (verify_claims rules of C16)
+    from .. import claims as CL
+    for f in CL.analyse(facts):
+        if f.rule in ("C16.R2", "C16.R3", "C16.R4"):
+            res.oblige(f.ok)
+            if f.ok:
+                res.inst(prop + ".R4", f.desc)
+            else:
+                res.violate(prop + ".R4", f.where, f.construct, f.msg, file=f.file, line=f.line)
+    res.floor(prop + ".R4", 10)
     # R2 / R3 behaviour table by abstract interpretation of the closure
     cb = facts.bodies.get(mine[0]["closure"])
     if cb is None:
@@ -104,7 +114,7 @@ def run(prop, key, direction):
     return res
 
 
-def plumbing(res, prop, facts):
+def plumbing(res, prop, facts, strict=True):
     """validate_claim -> GenericParser::validate_claim -> set_validation_claim inserts (claim key, closure) into claim_validators"""
     bs = [b for bid, b in facts.bodies.items() if re.search(r"GenericParser::<'a, 'b, Version, Purpose>::set_validation_claim$", bid)]
     ok = False
@@ -122,6 +132,19 @@ def plumbing(res, prop, facts):
         val = [k for k in keys if "claim_validators" in k[0]]
         ok = len(val) == 1 and "get_key" in val[0][1] and "param2" in val[0][1] and "param3" in val[0][2]
         why = "inserts found: %s" % keys
+        if not ok and not strict:
+            # any registration into claim_validators keyed by the claim's key that receives the closure (e.g. entry(key).or_insert_with(..))
+            keyed = False
+            closure_used = False
+            for bi, t in v.calls:
+                ct = S.demut(N.norm(v.call_term(t, bi)))
+                txt = M.show(ct)
+                if "claim_validators" in txt and "get_key(param2)" in txt:
+                    keyed = True
+                if any(x.op == "param" and x.name == 3 for x in ct.walk()) and re.search(r"HashMap|Entry|insert", ct.name):
+                    closure_used = True
+            ok = keyed and closure_used
+            why = "no registration of the closure into claim_validators under the claim's key was found"
         # forwarding chain
         for name, inner in ((r"GenericParser::<'a, 'b, Version, Purpose>::validate_claim$", r"set_validation_claim$"), (r"PasetoParser::<'a, Version, Purpose>::validate_claim$", r"GenericParser::<.*>::validate_claim$")):
             fb = [b for bid, b in facts.bodies.items() if re.search(name, bid)]
